@@ -165,6 +165,8 @@ pub struct CountingRng {
     pub bytes: usize,
     /// a source that cannot deliver: `try_fill_bytes` errs, the infallible methods panic
     pub failing: bool,
+    /// a degenerate source: every byte it delivers is this constant
+    pub constant: Option<u8>,
 }
 
 impl CountingRng {
@@ -172,7 +174,7 @@ impl CountingRng {
         let mut s = [0u8; 32];
         s[..8].copy_from_slice(&seed.to_le_bytes());
         s[31] = domain;
-        CountingRng { inner: ChaChaRng::from_seed(s), bytes: 0, failing: false }
+        CountingRng { inner: ChaChaRng::from_seed(s), bytes: 0, failing: false, constant: None }
     }
 }
 
@@ -182,6 +184,9 @@ impl RngCore for CountingRng {
             panic!("external RNG failure");
         }
         self.bytes += 4;
+        if let Some(c) = self.constant {
+            return u32::from_le_bytes([c; 4]);
+        }
         self.inner.next_u32()
     }
     fn next_u64(&mut self) -> u64 {
@@ -189,6 +194,9 @@ impl RngCore for CountingRng {
             panic!("external RNG failure");
         }
         self.bytes += 8;
+        if let Some(c) = self.constant {
+            return u64::from_le_bytes([c; 8]);
+        }
         self.inner.next_u64()
     }
     fn fill_bytes(&mut self, dest: &mut [u8]) {
@@ -196,6 +204,10 @@ impl RngCore for CountingRng {
             panic!("external RNG failure");
         }
         self.bytes += dest.len();
+        if let Some(c) = self.constant {
+            dest.fill(c);
+            return;
+        }
         self.inner.fill_bytes(dest)
     }
     fn try_fill_bytes(&mut self, dest: &mut [u8]) -> Result<(), rand_core::Error> {
@@ -284,7 +296,7 @@ impl<G: AffineRepr> Ctx<G> {
     fn real_lc(&self, terms: &[(Var, Fr<G>)]) -> LinearCombination<Fr<G>> {
         let k = self.lc_count.get();
         self.lc_count.set(k + 1);
-        let style = (k + if self.is_prover { 0 } else { self.lc_shift.get() }) % 8;
+        let style = (k + if self.is_prover { 0 } else { self.lc_shift.get() }) % 9;
         // now and then a term over `Variable::Phantom` (a public variant that stands for no
         // wire: it carries no weight on either role) at the front, inside or at the end
         let phantom: Option<(usize, Fr<G>)> = if k % 9 == 4 { Some(((k / 9) % (terms.len() + 1), Fr::<G>::from(3 + k as u64))) } else { None };
@@ -344,6 +356,16 @@ impl<G: AffineRepr> Ctx<G> {
                     Some((v0, c0)) => {
                         let start = self.real(v0) - (-self.real(v0)) * (*c0 - Fr::<G>::one());
                         it.fold(start, |acc, (v, c)| acc - term(v, -*c))
+                    }
+                }
+            }
+            8 => {
+                // a short combination minus a longer one: first term − Σ (−cᵢ)·vᵢ of the rest
+                match terms.split_first() {
+                    None => LinearCombination::default(),
+                    Some(((v0, c0), rest)) => {
+                        let right: LinearCombination<Fr<G>> = rest.iter().map(|(v, c)| (self.real(v), -*c)).collect();
+                        LinearCombination::from(self.real(v0)) * *c0 - right
                     }
                 }
             }
@@ -468,7 +490,10 @@ where
                         None => m.eval_terms(&t),
                     };
                     let e: Fr<G> = err.as_ref().map(|e| e.to_f()).unwrap_or(Fr::<G>::zero());
-                    t.push((Var::One, e - k));
+                    // a zero constant is spelled out only every other time
+                    if !(e - k).is_zero() || ctx.lc_count.get() % 2 == 1 {
+                        t.push((Var::One, e - k));
+                    }
                     t
                 };
                 let real = ctx.real_lc(&terms);
@@ -589,6 +614,10 @@ pub struct ProveOpts<G: AffineRepr> {
     pub start: Option<Transcript>,
     /// the caller's RNG cannot deliver randomness
     pub failing_rng: bool,
+    /// the caller's RNG delivers this byte only
+    pub constant_rng: Option<u8>,
+    /// the generator object holds `real_cap` generators but its capacity field says `cap`
+    pub real_cap: Option<usize>,
 }
 
 pub struct ProveOut<G: AffineRepr> {
@@ -621,7 +650,12 @@ impl<G: AffineRepr> ProveOut<G> {
 pub fn run_prover<G: CurveTag>(prog: &Program, opts: &ProveOpts<G>) -> ProveOut<G> {
     let shape = prog.shape();
     let cap = opts.cap.unwrap_or_else(|| prog.cap_p.resolve(shape.padded()));
-    let gens = bp_gens_mode::<G>(cap, prog.party_cap as usize, prog.gens);
+    let mut gens = bp_gens_mode::<G>(cap, prog.party_cap as usize, prog.gens);
+    if let Some(rc) = opts.real_cap {
+        let mut g = BulletproofGens::<G>::new(rc, prog.party_cap as usize);
+        g.gens_capacity = cap;
+        gens = Rc::new(g);
+    }
     let pc = opts.pc_gens.unwrap_or_else(|| prog_pc::<G>(prog));
     let ctx = Ctx::<G>::new(true, vec![]);
     let ctx = if opts.direct_vars {
@@ -635,6 +669,7 @@ pub fn run_prover<G: CurveTag>(prog: &Program, opts: &ProveOpts<G>) -> ProveOut<
     ctx.missing_retry.set(opts.missing_retry);
     let mut rng = CountingRng::new(opts.seed.unwrap_or(prog.seed), 1);
     rng.failing = opts.failing_rng;
+    rng.constant = opts.constant_rng;
     let mut t = match &opts.start {
         Some(s) => {
             let mut t = s.clone();
